@@ -208,4 +208,115 @@ theorem link_requires_blob_fixed (hash : Bytes → Digest) (k : Disk) (name : By
           exact hl.2.2
         · next hne => exact absurd hok (by simpa using hne)
 
+/-! ## concurrent writers of one blob -/
+
+/-- **Concurrent good writers are safe.**  Any number of writers of the same digest whose sources all deliver
+    the true content (any chunkings), any interleaving of their stats, opens and writes, any of them dying at
+    any point with its current write cut at any byte (`Ev.tear`), starting from an absent file, a shorter
+    file (garbage or a crash's leftover) or an already complete one: at EVERY moment the file is trusted.
+    Why: nobody truncates (no file is ever longer than `size`), everybody writes `content`'s own bytes at their
+    own offsets sequentially from 0, so the file is always a correct prefix plus leftovers and is full-size
+    only when it equals `content`. -/
+theorem concurrent_good_writers_safe (hash : Bytes → Digest) (d : Digest) (content : Bytes)
+    (hh : hash content = d) (scripts : List Script) (hgood : ∀ s ∈ scripts, GoodScript content s)
+    (f0 : FileSt)
+    (h0 : f0 = none ∨ ∃ g, f0 = some g ∧
+      (g.length < content.length ∨ (g.length = content.length ∧ hash g = d)))
+    (evs : List Ev) :
+    Trusted hash (exec hash d content.length evs ⟨f0, scripts.map W.init⟩).file d content.length := by
+  by_cases hsz : content.length = 0
+  · rw [hsz]; exact trusted_size_zero hash d _
+  · apply concInv_trusted hash d content hh
+    apply exec_inv hash d content hh hsz
+    have hinit : ∀ w ∈ scripts.map W.init, ∀ N, WOK content f0 N w := by
+      intro w hw N
+      simp only [List.mem_map] at hw
+      obtain ⟨sc, hsc, rfl⟩ := hw
+      exact hgood sc hsc
+    rcases h0 with rfl | ⟨g, rfl, hlt | ⟨hl, hg⟩⟩
+    · exact Or.inr ⟨0, Nat.zero_le _, rfl, fun w hw => hinit w hw 0⟩
+    · exact Or.inr ⟨0, Nat.zero_le _, ⟨g, by simp, by simp; omega, by simp; omega⟩, fun w hw => hinit w hw 0⟩
+    · refine Or.inl ⟨g, rfl, hl, hg, ?_⟩
+      intro w hw
+      simp only [List.mem_map] at hw
+      obtain ⟨sc, _, rfl⟩ := hw
+      trivial
+
+/-- the identity as "hash function" for the concrete witnesses (any function would do; the theorems above
+    never look inside `hash`) -/
+def idh : Bytes → Digest := fun b => b
+
+/-- **Finding F9: `concurrent_safe` is FALSE with one misbehaving co-writer.**  Content `[1,2,3,4]`; writer 0 is
+    good (chunks `[1,2]`,`[3,4]`), writer 1's source fails at once.  Schedule: 0 stats, opens, writes `[1,2]`;
+    1 stats (2 ≠ 4 bytes: proceeds, no O_TRUNC), opens, fails ⇒ `Truncate(0)`; 0 writes `[3,4]` at offset 2
+    and returns ok.  Left on disk for good: a 4-byte file `[0,0,3,4]` — present, right size, wrong content,
+    acknowledged with `nil` to the good writer.  (Second part: if instead the good writer finishes first, the
+    failing writer's `Truncate(0)` destroys the completed, acknowledged blob.) -/
+theorem F9_failing_cowriter_breaks_trust :
+    let c : Bytes := [1, 2, 3, 4]
+    let good : Script := ⟨[[1, 2], [3, 4]], .eof⟩
+    let bad : Script := ⟨[], .err⟩
+    let s := exec idh c 4
+      [.step 0, .step 0, .step 0, .step 1, .step 1, .step 1, .step 0, .step 0, .step 0, .step 1, .step 1]
+      ⟨none, [.init good, .init bad]⟩
+    (s.file = some [0, 0, 3, 4] ∧ ¬ Trusted idh s.file c 4) ∧
+    let s2 := exec idh c 4
+      [.step 0, .step 0, .step 0, .step 1, .step 1, .step 0, .step 0, .step 0, .step 1, .step 1, .step 1]
+      ⟨none, [.init good, .init bad]⟩
+    s2.file = some [] := by
+  refine ⟨⟨by decide, ?_⟩, by decide⟩
+  intro h
+  exact absurd (h [0, 0, 3, 4] (by decide) (by decide) (by decide)) (by decide)
+
+/-- Model-only witness (cannot be forced on the real code without a hook between `os.Stat` and
+    `os.OpenFile`): starting from a LONGER garbage file even two good writers can expose a full-size holey
+    file for a while, because both may decide on `O_TRUNC` before either opens.  This is why
+    `concurrent_good_writers_safe` excludes a longer initial file. -/
+theorem good_writers_from_longer_file_transiently_unsafe :
+    let c : Bytes := [1, 2, 3, 4]
+    let good : Script := ⟨[[1, 2], [3, 4]], .eof⟩
+    (exec idh c 4 [.step 0, .step 1, .step 0, .step 0, .step 1, .step 0]
+      ⟨some [9, 9, 9, 9, 9], [.init good, .init good]⟩).file = some [0, 0, 3, 4] := by decide
+
+/-! ## chunked writes -/
+
+/-- **Finding F10 at the cache level: a chunked blob is "present with the right size" before all chunks are
+    written.**  `Chunked(d,4)` + `Put(Chunk{2,3})` of content `[1,2,3,4]`: the file is `[0,0,3,4]`; `Get` reports
+    size 4; it is not trusted; and a later `Put` of the true content is answered `ok` from the size shortcut
+    without repairing it. -/
+theorem F10_chunk_holes_present_with_full_size :
+    let c : Bytes := [1, 2, 3, 4]
+    let k := chunk idh Disk.empty c 4 2 3 [3, 4] ⟨[[3, 4]], .eof⟩
+    k.2 = .ok ∧ k.1.blob c = some [0, 0, 3, 4] ∧ getB k.1 c = .entry 4 ∧
+    ¬ Trusted idh (k.1.blob c) c 4 ∧
+    (put idh k.1 c 4 ⟨[c], .eof⟩).2 = .ok ∧ (put idh k.1 c 4 ⟨[c], .eof⟩).1.blob c = some [0, 0, 3, 4] := by
+  refine ⟨by decide, by decide, by decide, ?_, by decide, by decide⟩
+  intro h
+  exact absurd (h [0, 0, 3, 4] (by decide) (by decide) (by decide)) (by decide)
+
+/-! ## Link then Resolve -/
+
+/-- **Finding F8: `Link n d = ok → Resolve n = d` is FALSE** when `n` is already linked to a different manifest
+    of the same size: the second `Link` answers ok and changes nothing.  (Second part: the repaired `Link`.) -/
+theorem F8_relink_same_size_keeps_old :
+    let A : Bytes := [1, 1, 1]
+    let B : Bytes := [2, 2, 2]
+    let ops : List Op := [.put A 3 ⟨[A], .eof⟩, .put B 3 ⟨[B], .eof⟩, .link nm A, .link nm B, .resolve nm]
+    (runOps idh false ops Disk.empty).2 = [.res .ok, .res .ok, .res .ok, .res .ok, .digest A] ∧
+    (runOps idh true ops Disk.empty).2 = [.res .ok, .res .ok, .res .ok, .res .ok, .digest B] := by decide
+
+/-- non-vacuity of the hypotheses of the universally quantified theorems above: a good script, a proper
+    crash cut with a torn write, a trusted shorter-garbage start -/
+example : GoodScript [1, 2, 3, 4] ⟨[[1], [], [2, 3], [4]], .eof⟩ ∧
+    Cut (copyNamedEffs idh (some [9, 9]) [1, 2, 3, 4] 4 ⟨[[1], [2, 3, 4]], .eof⟩).1
+      [.openCreate false, .pwrite 0 [1], .pwrite 1 [2, 3]] ∧
+    Trusted idh (some [9, 9]) [1, 2, 3, 4] 4 ∧
+    run [.openCreate false, .pwrite 0 [1], .pwrite 1 [2, 3]] (some [9, 9]) = some [1, 2, 3] := by
+  refine ⟨⟨by decide, rfl⟩, ?_, ?_, by decide⟩
+  · have : (copyNamedEffs idh (some [9, 9]) [1, 2, 3, 4] 4 ⟨[[1], [2, 3, 4]], .eof⟩).1 =
+        [.openCreate false, .pwrite 0 [1], .pwrite 1 [2, 3, 4], .close] := by decide
+    rw [this]
+    exact Cut.next _ _ _ (Cut.next _ _ _ (Cut.torn 1 [2, 3, 4] [.close] 2))
+  · intro f hf _ hl; cases hf; simp at hl
+
 end OllamaVerif.C08
